@@ -179,3 +179,26 @@ Section Frag.
     unfold url_of, is_ipv6. cbn [u_scheme u_username u_password u_host u_hostname u_port u_path u_query]. rewrite Hd. reflexivity.
   Qed.
 End Frag.
+
+(* ---------- IPv4 spellings: the normalized form is a function of the 32-bit value alone ---------- *)
+Section Ipv4.
+  Variable int_o : N -> str -> option Z.
+
+  (* the number an IPv4 spelling denotes: one integer (decimal, 0-octal or 0x-hex), or four of them *)
+  Definition ipv4_value (a : str) : option Z :=
+    match count 46 a with
+    | 0%nat => parse_ipv4_int int_o a
+    | 3%nat => ipv4_sum int_o (split_on 46 a) 24 0
+    | _ => None
+    end.
+
+  Theorem normalize_ipv4_by_value a :
+    normalize_ipv4_address int_o a = match ipv4_value a with Some n => ipv4_compressed n | None => None end.
+  Proof.
+    unfold normalize_ipv4_address, ipv4_value. destruct (count 46 a) as [|[|[|[|k]]]]; try reflexivity.
+  Qed.
+
+  Theorem normalize_ipv4_same_value a a' :
+    ipv4_value a = ipv4_value a' -> normalize_ipv4_address int_o a = normalize_ipv4_address int_o a'.
+  Proof. intros H. rewrite !normalize_ipv4_by_value, H. reflexivity. Qed.
+End Ipv4.
